@@ -379,6 +379,17 @@ def speedup():
         _patched[0] = True
 
 
+def track_level_op(colors, st):
+    """the oracle's own record of every level's current colour: `recolor` = level(name, color=…, icon=…) of an
+    existing level (color None keeps it), `newlevel` = level(name, no=…, color=…) creating a level at run time
+    (color None = the default: no colour)"""
+    if st["op"] == "recolor":
+        if st.get("color") is not None:
+            colors[st["level"]] = st["color"]
+    elif st["op"] == "newlevel":
+        colors[st["level"]] = st["color"] if st.get("color") is not None else ""
+
+
 def apply_rewrite(kind, text):
     """the (idempotent) rewriting of record["message"] a scenario's filter / format function / patcher performs"""
     k = kind[0]
@@ -454,9 +465,18 @@ def run_scenario(sc):
         return [("add-error", "ValueError")]
     logger_ = lg.patch(rewriting) if where == "patcher" else lg
     try:
-        for st in sc["steps"]:
-            if st["op"] == "recolor":
-                lg.level(st["level"], color=st["color"])
+        level_errors = []
+        for si, st in enumerate(sc["steps"]):
+            if st["op"] in ("recolor", "newlevel"):
+                try:
+                    if st["op"] == "newlevel":
+                        lg.level(st["level"], no=st["no"], color=st.get("color"))
+                    elif st.get("color") is None and st.get("icon") is None:
+                        lg.level(st["level"], color=lg.level(st["level"]).color)   # re-declared unchanged
+                    else:
+                        lg.level(st["level"], color=st.get("color"), icon=st.get("icon"))
+                except Exception as e:  # noqa
+                    level_errors.append(("level-error", core.err_kind(e), si))
                 continue
             del col[:], pla[:]
             o = logger_.opt(colors=True, raw=st.get("raw", False))
@@ -471,6 +491,7 @@ def run_scenario(sc):
                 results.append(("count", len(col), len(pla)))
                 continue
             results.append(("ok", str(col[0]), str(pla[0]), pla[0].record))
+        results.extend(level_errors)      # after the per-log-step entries, so that their indexing is unaffected
     finally:
         lg.remove()
     return results
@@ -536,13 +557,42 @@ def gen_scenario(rng, stats):
         levels = ["FOO"] + levels
     steps = []
     focus = rng.choice([l for l in levels if isinstance(l, str)])
+    cur = dict(DEFAULT_LEVEL_COLORS)
+    cur.update({n: c for n, _no, c in sc["custom_levels"]})
+    nnew = 0
+
+    def recolor_step(level):
+        """level(name, …) on an existing level: new colour, the SAME colour again, icon only, or nothing at all"""
+        k = rng.below(10)
+        if k < 6:
+            st = {"op": "recolor", "level": level, "color": rng.choice(LEVEL_COLORS)}
+        elif k < 8:
+            st = {"op": "recolor", "level": level, "color": cur[level]}
+        elif k < 9:
+            st = {"op": "recolor", "level": level, "color": None, "icon": rng.choice(["@", "!", "é"])}
+        else:
+            st = {"op": "recolor", "level": level, "color": None}
+        track_level_op(cur, st)
+        return st
+
     for _ in range(rng.range(3, 6) if focus_mode else rng.range(1, 3)):
+        # levels created at run time, AFTER the handlers exist: with a colour, with colour "", or without any
+        if rng.chance(30 if focus_mode else 15):
+            nnew += 1
+            name = "NEW%d" % nnew
+            st = {"op": "newlevel", "level": name, "no": rng.range(0, 60),
+                  "color": rng.choice([None, None, "", rng.choice(LEVEL_COLORS), rng.choice(LEVEL_COLORS)])}
+            track_level_op(cur, st)
+            steps.append(st)
+            levels = [name, name] + levels
+            if focus_mode and rng.chance(60):
+                focus = name
+            stats("scenario:newlevel-%s" % ("no-colour" if not st["color"] else "coloured"))
         if focus_mode:
             if steps and rng.chance(45):
-                steps.append({"op": "recolor", "level": focus, "color": rng.choice(LEVEL_COLORS)})
+                steps.append(recolor_step(focus))
         elif rng.chance(25):
-            steps.append({"op": "recolor", "level": rng.choice([l for l in levels if isinstance(l, str)]),
-                          "color": rng.choice(LEVEL_COLORS)})
+            steps.append(recolor_step(rng.choice([l for l in levels if isinstance(l, str)])))
         malformed_msg = rng.chance(7)
         with_args = rng.chance(35)
         if with_args:
@@ -638,10 +688,15 @@ def judge_scenario(ctx, sc, results, origin):
     if not fmt_ok and not sc["dynamic"]:
         viol("add() accepted the format %r whose markup is unknown/unbalanced/mis-nested" % fmt)
         return nviol
+    for r in results:
+        if r[0] == "level-error":
+            st = sc["steps"][r[2]]
+            viol("level(%r, no=%r, color=%r, icon=%r) raised %s on a valid declaration"
+                 % (st["level"], st.get("no"), st.get("color"), st.get("icon"), r[1]), {"step": r[2]})
     ri = 0
     for st in sc["steps"]:
-        if st["op"] == "recolor":
-            colors[st["level"]] = st["color"]
+        if st["op"] in ("recolor", "newlevel"):
+            track_level_op(colors, st)
             continue
         res = results[ri] if ri < len(results) else ("missing",)
         ri += 1
@@ -695,7 +750,9 @@ def judge_scenario(ctx, sc, results, origin):
             if res[0] == "log-error" and format_has_f10_shape(fmt):
                 ctx.stat("scenario:f10-shape-error")
                 continue
-            viol("logging call failed on well-formed input: %r (format %r, message %r)" % (res[:2], fmt, msg),
+            ops = [(x["op"], x["level"], x.get("no"), x.get("color")) for x in sc["steps"] if x["op"] != "log"]
+            viol("logging call at level %r failed on well-formed input: %r (%s format %r, message %r, level "
+                 "declarations after add(): %r)" % (lvl, res[:2], "callable" if sc["dynamic"] else "static", fmt, msg, ops),
                  {"step": ri - 1})
             continue
         _, colored, plain, record = res
@@ -794,8 +851,8 @@ def pair_lines(sc, results):
         return out
     ri = 0
     for st in sc["steps"]:
-        if st["op"] == "recolor":
-            colors[st["level"]] = st["color"]
+        if st["op"] in ("recolor", "newlevel"):
+            track_level_op(colors, st)
             continue
         res = results[ri] if ri < len(results) else ("missing",)
         ri += 1
@@ -985,9 +1042,12 @@ def run(ctx):
         for s in sc["steps"]:
             if s["op"] == "recolor":
                 ctx.stat("scenario:recolor")
+            elif s["op"] == "newlevel":
+                ctx.stat("scenario:newlevel")
             else:
                 ctx.stat("scenario:level=%s" % ("numeric" if not isinstance(s["level"], str) else
-                                                ("custom" if s["level"] == "FOO" else "named")))
+                                                ("custom" if s["level"] == "FOO" else
+                                                 ("created-at-run-time" if s["level"].startswith("NEW") else "named"))))
                 if s.get("raw"):
                     ctx.stat("scenario:raw")
                 if s.get("args") or s.get("kwargs"):
